@@ -208,8 +208,11 @@ type StructDef struct {
 	Name        string
 	Fields      []*Field
 	InitDefault bool
-	Unknown     bool // has the _unknownFields holder
-	Decoys      int  // bit0 unexported field, bit1 untagged exported field, bit2 embedded struct
+	// PanicInit: the type's InitDefault panics (user code failing while frugal runs it under its registration lock).
+	// Such definitions are neither Valid nor Rejected; only the concurrency and history profiles call on them.
+	PanicInit bool
+	Unknown   bool // has the _unknownFields holder
+	Decoys    int  // bit0 unexported field, bit1 untagged exported field, bit2 embedded struct
 	// Invalid: non-empty for an invalid-by-construction definition (C13): the defect class.
 	Invalid string
 	// RawFields replaces the field list in the emitted source for invalid definitions.
@@ -255,7 +258,18 @@ func (c *Corpus) index() {
 func (c *Corpus) Valid() []*StructDef {
 	var r []*StructDef
 	for _, s := range c.Structs {
-		if !s.Rejected() {
+		if !s.Rejected() && !s.PanicInit {
+			r = append(r, s)
+		}
+	}
+	return r
+}
+
+// Panicky lists the definitions whose initialiser panics.
+func (c *Corpus) Panicky() []*StructDef {
+	var r []*StructDef
+	for _, s := range c.Structs {
+		if s.PanicInit {
 			r = append(r, s)
 		}
 	}
